@@ -2,8 +2,8 @@
    Statements only; every proof is `exact <lemma>` into C13_ACL/{Proofs,Roles,Closure,Link}.v.
    Model: C13_ACL/Model.v (pkg/appdef/acl).  Names are numbered in QName order; fields 0..4 are
    the system fields.  The model takes three flags the translator reads from the Go source; the
-   main theorems below are about the code as it is now (defects C13-F1..F6 repaired: commits
-   f6551f282, f6b8b67e8, feabf8710, 703ca3b05, 7ccaa0849) and rest on the three side-condition lemmas, so that a
+   main theorems below are about the code as it is now (defects C13-F1..F6, F8 repaired: commits
+   f6551f282, f6b8b67e8, feabf8710, 703ca3b05, 7ccaa0849, 96748c4dd) and rest on the three side-condition lemmas, so that a
    regression of any of the repairs re-opens them.  The shapes found before the repairs are kept
    at the end as refutation witnesses about explicit flag values. *)
 From Coq Require Import List NArith Bool Relations.
@@ -32,6 +32,9 @@ Proof. reflexivity. Qed.
 (* the VSQL compiler emits the GRANTs and REVOKEs of a block in textual order (C13-F6 repaired) *)
 Lemma rules_compiled_in_source_order : parser_acl_grants_first = false.
 Proof. reflexivity. Qed.
+(* a rule keeps its own copy of the field list it is declared with (C13-F8 repaired) *)
+Lemma rule_clones_field_list : acl_rule_clones_fields = true.
+Proof. reflexivity. Qed.
 
 (* ===== declared rules ===== *)
 
@@ -48,23 +51,10 @@ Theorem all_rule_covers_every_applicable_operation :
   In t (vis_types S (dws d)) -> fmatch (rflt (drl d)) t = true -> rops (eff_rule S d) = taclops t.
 Proof. exact (accepted_all_ops_cur all_rule_requires_uniform_operations). Qed.
 
-(* FULL STATEMENT (refuted by the code as it is, finding C13-F8):
-     forall S d, rfields (eff_rule S d) = rfields (drl d)
-   - a rule keeps the field list it was declared with.  The rule stores the caller's slice; what the
-   caller writes into that slice afterwards becomes the rule's field list. *)
-Theorem rule_fields_refuted_when_shared :
-  exists S d, rfields (eff_rule_gen false S d) <> rfields (drl d).
-Proof.
-  exists (mkSchema [] []), (mkD 20 0 false [6] (mkRule [acl_op_select] true (FQNames [14]) [5] 11)).
-  vm_compute. discriminate.
-Qed.
-(* PARTIAL: as long as the caller leaves its slice alone; and, full strength, once the rule clones it *)
-Theorem rule_fields_partial :
-  forall clones S d, clones = true \/ dscr d = [] -> rfields (eff_rule_gen clones S d) = rfields (drl d).
-Proof. intros clones S d H. exact (eff_fields_declared clones d H). Qed.
-Theorem rule_fields_kept_if_cloned :
-  acl_rule_clones_fields = true -> forall S d, rfields (eff_rule S d) = rfields (drl d).
-Proof. exact eff_rule_fields_cur. Qed.
+(* A rule keeps the field list it was declared with, whatever the caller does afterwards with the
+   slice it passed (C13-F8 repaired: the rule clones it). *)
+Theorem rule_fields_kept : forall S d, rfields (eff_rule S d) = rfields (drl d).
+Proof. exact (eff_rule_fields_cur rule_clones_field_list). Qed.
 
 (* ===== the rule fold of checkOperationOnTypeForRoles ===== *)
 
@@ -272,6 +262,18 @@ Proof.
             [mkWs 20 [] [mkRule [acl_op_inherits] true (FQNames [11]) [] 10; mkRule [acl_op_inherits] true (FQNames [10]) [] 11]]), 10, 20.
   split; [vm_compute; reflexivity|]. eexists. vm_compute. reflexivity.
 Qed.
+(* C13-F8: a rule sharing the caller's slice shows whatever the caller writes there later ... *)
+Theorem rule_fields_refuted_when_shared :
+  exists S d, rfields (eff_rule_gen false S d) <> rfields (drl d).
+Proof.
+  exists (mkSchema [] []), (mkD 20 0 false [6] (mkRule [acl_op_select] true (FQNames [14]) [5] 11)).
+  vm_compute. discriminate.
+Qed.
+(* ... unless the caller leaves its slice alone *)
+Theorem rule_fields_partial :
+  forall clones S d, clones = true \/ dscr d = [] -> rfields (eff_rule_gen clones S d) = rfields (drl d).
+Proof. intros clones S d H. exact (eff_fields_declared clones d H). Qed.
+
 (* C13-F6: with all GRANTs of a block compiled before its REVOKEs the ACL is not the declared list and
    the decision changes (REVOKE; GRANT in one block: allowed as declared, denied as compiled) ... *)
 Theorem grants_first_refuted :
@@ -438,6 +440,11 @@ Example sibling_ancestors_in_name_order :
   ws_order (S [g] [r]) 24 = [21; 22; 23; 24].
 Proof. vm_compute. repeat split. Qed.
 
+Example rule_fields_nonvacuous :
+  let d := mkD 20 0 false [6] (mkRule [acl_op_update] true (FQNames [14]) [5] 11) in
+  rfields (eff_rule (mkSchema [] []) d) = [5] /\ rfields (eff_rule_gen false (mkSchema [] []) d) = [6].
+Proof. vm_compute. split; reflexivity. Qed.
+
 Example link_nonvacuous :
   let q := mkQ 20 acl_op_select 14 [1; 5] [13; 10; 11; 12] OAllow in
   qout q = is_allowed_gen found_cfg ex_schema 99 20 acl_op_select 14 [1; 5] [13; 10; 11; 12] /\
@@ -454,7 +461,7 @@ Print Assumptions grants_first_partial.
 Print Assumptions all_rule_refuted_without_uniformity.
 Print Assumptions rule_fields_refuted_when_shared.
 Print Assumptions rule_fields_partial.
-Print Assumptions rule_fields_kept_if_cloned.
+Print Assumptions rule_fields_kept.
 Print Assumptions fields_fold_is_last_rule_wins.
 Print Assumptions fold_result_with_fields.
 Print Assumptions fold_result_without_fields.
